@@ -83,29 +83,42 @@ theorem writeBit_bitAt (buf : Array Nat) (pos q : Nat) (b : Bool) (h : WordsOk b
     have : q ≠ pos := by rintro rfl; exact e rfl
     rw [if_neg this]
 
-theorem writeBits_size (buf : Array Nat) (p v : Nat) : ∀ n, (writeBits buf p v n).size = buf.size
-  | 0 => rfl
-  | n + 1 => by rw [writeBits, writeBit_size, writeBits_size buf p v n]
+theorem writeBitsFrom_size (p v : Nat) : ∀ n k buf, (writeBitsFrom p v n k buf).size = buf.size
+  | 0, _, _ => rfl
+  | n + 1, k, buf => by rw [writeBitsFrom, writeBitsFrom_size p v n, writeBit_size]
 
-theorem writeBits_ok (buf : Array Nat) (p v : Nat) (h : WordsOk buf) : ∀ n, WordsOk (writeBits buf p v n)
-  | 0 => h
-  | n + 1 => by rw [writeBits]; exact writeBit_ok _ _ _ (writeBits_ok buf p v h n)
+theorem writeBitsFrom_ok (p v : Nat) : ∀ n k buf, WordsOk buf → WordsOk (writeBitsFrom p v n k buf)
+  | 0, _, _, h => h
+  | n + 1, k, buf, h => by rw [writeBitsFrom]; exact writeBitsFrom_ok p v n _ _ (writeBit_ok _ _ _ h)
 
-/-- after the bit writes of `Set`, flat bits `p … p+n-1` hold `v`, all others are untouched -/
-theorem writeBits_bitAt (buf : Array Nat) (p v : Nat) (h : WordsOk buf) :
-    ∀ n q, (p + n + 15) / 16 ≤ buf.size →
-      bitAt (writeBits buf p v n) q = if p ≤ q ∧ q < p + n then v.testBit (q - p) else bitAt buf q
-  | 0, q, _ => by
-    rw [writeBits, if_neg (by omega)]
-  | n + 1, q, hin => by
-    rw [writeBits, writeBit_bitAt _ _ _ _ (writeBits_ok buf p v h n) (by rw [writeBits_size]; omega),
-      writeBits_bitAt buf p v h n q (by omega)]
-    by_cases e : q = p + n
-    · subst e; simp
+theorem writeBitsFrom_bitAt (p v : Nat) : ∀ n k buf q, WordsOk buf → (p + k + n + 15) / 16 ≤ buf.size →
+    bitAt (writeBitsFrom p v n k buf) q =
+      if p + k ≤ q ∧ q < p + k + n then v.testBit (q - p) else bitAt buf q
+  | 0, k, buf, q, _, _ => by rw [writeBitsFrom, if_neg (by omega)]
+  | n + 1, k, buf, q, h, hin => by
+    rw [writeBitsFrom, writeBitsFrom_bitAt p v n (k + 1) _ q (writeBit_ok _ _ _ h)
+      (by rw [writeBit_size]; omega), writeBit_bitAt _ _ _ _ h (by omega)]
+    by_cases e : q = p + k
+    · subst e
+      rw [if_neg (by omega), if_pos rfl, if_pos (by omega)]
+      congr 1; omega
     · rw [if_neg e]
-      by_cases h1 : p ≤ q ∧ q < p + n
+      by_cases h1 : p + (k + 1) ≤ q ∧ q < p + (k + 1) + n
       · rw [if_pos h1, if_pos (by omega)]
       · rw [if_neg h1, if_neg (by omega)]
+
+theorem writeBits_size (buf : Array Nat) (p v : Nat) (n : Nat) : (writeBits buf p v n).size = buf.size :=
+  writeBitsFrom_size p v n 0 buf
+
+theorem writeBits_ok (buf : Array Nat) (p v : Nat) (h : WordsOk buf) (n : Nat) : WordsOk (writeBits buf p v n) :=
+  writeBitsFrom_ok p v n 0 buf h
+
+/-- after the bit writes of `Set`, flat bits `p … p+n-1` hold `v`, all others are untouched -/
+theorem writeBits_bitAt (buf : Array Nat) (p v : Nat) (h : WordsOk buf) (n q : Nat)
+    (hin : (p + n + 15) / 16 ≤ buf.size) :
+    bitAt (writeBits buf p v n) q = if p ≤ q ∧ q < p + n then v.testBit (q - p) else bitAt buf q := by
+  have := writeBitsFrom_bitAt p v n 0 buf q h (by simpa using hin)
+  simpa [writeBits] using this
 
 /-! ### `Get` -/
 
